@@ -48,7 +48,9 @@ class After(Condition):
         return Before(self.date)
 
     def _ensure_trigger(self):
-        if not self._scheduled:
+        # a date that is reached already needs no trigger (and cannot be
+        # scheduled): subscribers of a true condition are woken immediately
+        if not self._scheduled and not self:
             self._scheduled = True
             __USIM_STATE__.loop.schedule(self._async_trigger(), at=self.date)
 
@@ -168,10 +170,17 @@ class Moment(Condition):
         return True  # noqa: B901
 
     def __subscribe__(self, waiter: Coroutine, interrupt: CoreInterrupt):
-        self._transition.__subscribe__(waiter, interrupt)
+        if __USIM_STATE__.loop.time > self.date:
+            # the moment has passed and never occurs again: never notify
+            Notification.__subscribe__(self, waiter, interrupt)
+        else:
+            self._transition.__subscribe__(waiter, interrupt)
 
     def __unsubscribe__(self, waiter: Coroutine, interrupt: CoreInterrupt):
-        self._transition.__unsubscribe__(waiter, interrupt)
+        if (waiter, interrupt) in self._waiting:
+            Notification.__unsubscribe__(self, waiter, interrupt)
+        else:
+            self._transition.__unsubscribe__(waiter, interrupt)
 
     def __repr__(self):
         return f'{self.__class__.__name__}(date={self.date})'
